@@ -105,7 +105,7 @@ func c09CheckInput(s string) (class, viol string) {
 			buf := make([]byte, 1<<16)
 			buf = buf[:runtime.Stack(buf, true)]
 			if strings.Contains(string(buf), "queryparser.(*lexer)") {
-				where = "the lexer goroutine (blocked sending a token nobody will receive)"
+				where = "the lexer goroutine (still running or blocked sending a token nobody will receive)"
 			}
 		}
 		c09Baseline = runtime.NumGoroutine() // keep going with the leaked goroutine counted in
@@ -134,7 +134,7 @@ func c09CheckInput(s string) (class, viol string) {
 	return "", ""
 }
 
-var c09Tokens = []string{"a", "b1", "=", `"x"`, `""`, "$1", "&", "|", "^", "(", ")", ";", ","}
+var c09Tokens = []string{"a", "b1", "=", `"x"`, `""`, `"""q"""`, "$1", "&", "|", "^", "(", ")", ";", ","}
 var c09Bytes = []string{"a", "Z", "_", "7", " ", "\n", `"`, "$", "=", "&", "|", "^", "(", ")", ";", ",", "\x00", "\xff", "é", "."}
 
 type c09Case struct {
@@ -180,7 +180,7 @@ func seqs(alphabet []string, n int, sep string, sh, nsh int, f func(s string) bo
 
 func c09Families() []string {
 	var out []string
-	for _, n := range []string{"", "0", "1", "2", "007", "2147483647", "2147483648", "4294967295", "4294967296", "4294967297", "9223372036854775807", "9223372036854775808", "18446744073709551617", "1000000000000000000000000000000", "00000000000000000000000000000000000000001"} {
+	for _, n := range []string{"", "0", "1", "2", "007", "08", "09", "010", "0010", "0x10", "1e3", "1_0", "٣", "2147483647", "2147483648", "4294967295", "4294967296", "4294967297", "9223372036854775807", "9223372036854775808", "18446744073709551617", "1000000000000000000000000000000", "00000000000000000000000000000000000000001"} {
 		out = append(out, "a = $"+n, "a = $"+n+" & b = $1", "^ a = $"+n+" ; b")
 	}
 	for _, k := range []int{1, 2, 3, 10, 100, 1000, 10000} {
@@ -282,7 +282,8 @@ func c09Worker(ctx *rt.Ctx, job *rt.Job) []*rt.Violation {
 			ctx.Cov.Cap(fmt.Sprintf("deadline in space %s length %d", a.Space, a.Len))
 			return false
 		}
-		return len(vs) < 6 && !(class == "hang")
+		// a goroutine that was left behind may be spinning (it then takes a time slice at every yield): stop this worker
+		return len(vs) < 6 && class != "hang" && class != "leak"
 	}
 	switch a.Space {
 	case "tokens":
@@ -290,7 +291,7 @@ func c09Worker(ctx *rt.Ctx, job *rt.Job) []*rt.Violation {
 	case "bytes":
 		seqs(c09Bytes, a.Len, "", job.Shard, job.NShards, check)
 	case "sentences":
-		leaves := []*model.Expr{model.Eq("a", "x"), model.Eq("b1", "$2"), model.Eq("c", "")}
+		leaves := []*model.Expr{model.Eq("a", "x"), model.Eq("b1", "$2"), model.Eq("c", "\"q\"r\"")}
 		trees := model.Trees(leaves, a.Len, 2)
 		for i, t := range trees {
 			if i%job.NShards != job.Shard {
@@ -362,7 +363,7 @@ func c09Run(ctx *rt.Ctx) []*rt.Violation {
 	}
 	outs := rt.RunJobs(ctx, jobs, rt.SpawnOpt{MaxProcs1: true})
 	vs := rt.Collect(ctx, outs, nil)
-	ctx.Cov.Note("rule", fmt.Sprintf("every string of <=%d tokens over a 13-token alphabet (joined by spaces), every string of <=%d symbols over a 20-symbol byte alphabet (incl. NUL, invalid UTF-8, non-ASCII), and finite families (placeholder numbers around 2^31/2^32/2^63, nesting to 10000, token-level mutations of 4 sentences) is parsed by the real parser on its own goroutine under GOMAXPROCS=1 and compared with an independent recogniser of the documented grammar (accept/reject and the prescribed tree); after each call the goroutine count must return to the baseline; non-trivial = sentences containing an operator or parenthesis", tl, bl))
+	ctx.Cov.Note("rule", fmt.Sprintf("every string of <=%d tokens over a 14-token alphabet (joined by spaces), every string of <=%d symbols over a 20-symbol byte alphabet (incl. NUL, invalid UTF-8, non-ASCII), and finite families (placeholder numbers around 2^31/2^32/2^63, nesting to 10000, token-level mutations of 4 sentences) is parsed by the real parser on its own goroutine under GOMAXPROCS=1 and compared with an independent recogniser of the documented grammar (accept/reject and the prescribed tree); after each call the goroutine count must return to the baseline; non-trivial = sentences containing an operator or parenthesis", tl, bl))
 	ctx.Assumef("inputs longer than the bounds and nesting deeper than 10000 are not covered")
 	ctx.Assumef("goroutine leaks and hangs are decided by scheduler state under GOMAXPROCS=1 (nothing else runnable after a bounded number of yields), not by wall-clock time")
 	return vs
